@@ -457,6 +457,12 @@ func (c10) Run(c core.Case, w *core.Worker) core.Result {
 			if len(target) == 0 {
 				return true
 			}
+			if r.Chance(1, 25) && (li.reverse || li.pos <= 0) {
+				// the empty key: below every key. Ascending it is only legal before anything was
+				// passed (first key); descending it lies beyond the last key (exhausts)
+				target = [][]byte{nil, {}}[r.Intn(2)]
+				res.Add("seeks_to_the_empty_key", 1)
+			}
 			call = fmt.Sprintf("Seek(%q)", target)
 			if li.lastWasNext {
 				li.seekAfterNext = true
